@@ -84,6 +84,10 @@ func (g *Generate) Parse() error {
 		sort.Sort(values)
 		g.Values[i] = values
 
+		if err := validateValueNames(enumType, values, g.CaseInsensitive); err != nil {
+			return err
+		}
+
 		if g.CaseInsensitive {
 			if err := validateCaseInsensitiveNames(enumType, values); err != nil {
 				return err
@@ -118,6 +122,7 @@ func (g *Generate) Parse() error {
 					OwningValue:  v,
 					variableName: v.astLine.Names[j].Name,
 					value:        xprStr,
+					valueIdents:  identifiersOf(v.astLine.Values[j]),
 					constType:    tv.Type,
 					constValue:   tv.Value,
 				})
@@ -129,6 +134,9 @@ func (g *Generate) Parse() error {
 		processDuplicates(values, traits, enumType) // detect and warn duplicates
 		err = validateParsableTraits(enumType, values, traits)
 		if err != nil {
+			return err
+		}
+		if err := validateTraitIdentifiers(enumType, traits); err != nil {
 			return err
 		}
 
@@ -183,6 +191,96 @@ func validateParsableTraits(enumType string, values Values, traits TraitDescs) e
 		}
 	}
 	return nil
+}
+
+// templateScope is a scope of enumTemplate.gotmpl in which the generated code refers to the
+// definitions (enum constants, trait cells) by name.
+type templateScope int
+
+const (
+	// methodScope is the body of String() and of the trait accessors, `func (e T) ...`. It refers
+	// to the enum constants and to the trait cells.
+	methodScope templateScope = iota
+	// parseScope is the body of `func Parse<T>(input any)`. It refers to the enum constants and to
+	// the cells of the parsable traits.
+	parseScope
+	// parseFallbackScope is `if text, ok := input.(string); ok {...}` in Parse<T>. It is generated
+	// with -caseInsensitive only and refers to the enum constants.
+	parseFallbackScope
+)
+
+// reservedIdentifiers lists every identifier that enumTemplate.gotmpl binds in a scope in which
+// it refers to the definitions by name. A definition of such a name is shadowed there: with a
+// constant `e` the generated String() reads `switch e { case e: return "e"`, which compiles and
+// returns "e" for every value; most other collisions do not compile. Go has no way to spell the
+// package-level constant from inside such a scope, so these names cannot be used.
+//
+// Keep this list in sync with the template. Its other locals (v, s, err, data, value, tv, ...)
+// live in functions that refer to no definition and must not be listed.
+var reservedIdentifiers = []struct {
+	name  string
+	scope templateScope
+}{
+	{"e", methodScope},
+	{"input", parseScope},
+	{"text", parseFallbackScope},
+	{"ok", parseFallbackScope},
+}
+
+// validateValueNames returns an error if an enum constant has a name that the generated code
+// binds where it refers to the constant (see reservedIdentifiers).
+func validateValueNames(enumType string, values Values, caseInsensitive bool) error {
+	for _, v := range values {
+		for _, reserved := range reservedIdentifiers {
+			if v.Name != reserved.name || (reserved.scope == parseFallbackScope && !caseInsensitive) {
+				continue
+			}
+			return fmt.Errorf(
+				"Enum: %s cannot have a value named %s because the generated code uses the "+
+					"identifier %s itself, which would hide the constant. Please rename it.",
+				enumType, v.Name, reserved.name)
+		}
+	}
+	return nil
+}
+
+// validateTraitIdentifiers returns an error if a trait cell is copied into a scope of the
+// generated code that binds one of the identifiers of the cell (see reservedIdentifiers).
+func validateTraitIdentifiers(enumType string, traits TraitDescs) error {
+	for _, trait := range traits {
+		for _, instance := range trait.Traits {
+			for _, reserved := range reservedIdentifiers {
+				inScope := reserved.scope == methodScope || (reserved.scope == parseScope && trait.Parsable)
+				if !inScope || !slices.Contains(instance.identifiers(), reserved.name) {
+					continue
+				}
+				return fmt.Errorf(
+					"Enum: %s cannot have trait %s refer to %s (trait value `%s` of %s) because the "+
+						"generated code uses the identifier %s itself, which would hide that "+
+						"definition. Please rename it.",
+					enumType, trait.Name, reserved.name, instance.Value(), instance.OwningValue.Name,
+					reserved.name)
+			}
+		}
+	}
+	return nil
+}
+
+// identifiersOf returns the identifiers an expression resolves in its scope, i.e. all but the
+// selected names of selector expressions (the `Second` of `time.Second`).
+func identifiersOf(expr ast.Expr) []string {
+	var out []string
+	ast.Inspect(expr, func(n ast.Node) bool {
+		switch n := n.(type) {
+		case *ast.SelectorExpr:
+			out = append(out, identifiersOf(n.X)...)
+			return false
+		case *ast.Ident:
+			out = append(out, n.Name)
+		}
+		return true
+	})
+	return out
 }
 
 // useImportNames marks every import the expression refers to by name (e.g. the `stdtime` of
